@@ -242,6 +242,8 @@ def run(ctx):
     ctx.cov["static_instructions"] = n_static
     ctx.cov["static_level"] = "other (syntactic extraction of #[access_control] / has_one / constraint / seeds / in-handler role checks)"
     ctx.cov["dynamic_list"] = sorted(dyn)
+    ctx.cov["static_list"] = sorted(k for k in table if k not in dyn)
+    ctx.cov["worlds"] = sorted({e["world"] for e in measured})
     ctx.cov["positive_control_failed_for_other_reasons"] = pos_fail
     ctx.cov["rejected_after_writing_before_rollback"] = pre_rb
     ctx.cov["static_unrecognised"] = sorted(k for k in table if table[k]["impl"]["static"] == "no-recognisable-check")
